@@ -144,9 +144,9 @@ check("C12", "Lean 4 theorems about the shape of the model (queries are function
 check("C20", "Lean 4 theorems over a hand model (Rodrigues rotations about the auxiliary axis and the reference vector) + correspondence + round-trip oracle",
       "Theorems (Props/C20.lean, real reading): the offset vector has the length of the reference (|UB v'| = |UB v|) and makes exactly the polar angle with it for every azimuth; the frame "
       "decomposition used by the inverse is exact (offset_closed / offset_components), the azimuth atan2 recovers a mod 2 pi for every a incl. 90/180/270 deg where one projection vanishes, and the gate "
-      "is open whenever sin(pol) >= 2e-7. Correspondence: model vs both functions on random/axis-aligned/lab-axis references (auxiliary axis switch), azimuth sweeps + special values + beyond 360. "
+      "is open whenever sin(pol) >= 2e-7; polar_roundtrip composes all of it: polarFromHkl(UB, B, s.hklFromPolar(UB, ref, pol, az), ref) = (pol, az mod 2pi, s). Correspondence: model vs both functions on random/axis-aligned/lab-axis references (auxiliary axis switch), azimuth sweeps + special values + beyond 360. "
       "Oracle: round trip (pol, az mod 360, scale) on the implementation, also on one calculator object across lattice/U/UB changes through every public route.",
-      "Lean kernel; standard axioms; hand model tied by correspondence; scipy from_rotvec modelled by Rodrigues' formula; PARTIAL: composition through angle_between_vectors/bound by correspondence + oracle.",
+      "Lean kernel; standard axioms; hand model tied by correspondence; scipy from_rotvec modelled by Rodrigues' formula; the full round trip is a theorem on the model (Props/C20Round.lean: polar_roundtrip, with a concrete non-vacuity example); PARTIAL only in that thresholds 1e-7 are side conditions and the degree/radian argument conversion is tied by correspondence.",
       "DESIGN.md §6 C20")
 
 check("C07", "Lean 4 theorems over a hand model of calc_ub (selection table, triads, single-reflection rotation) + correspondence + recovery oracle",
